@@ -134,6 +134,12 @@ struct Explorer {
     bool check_invariants(const Dyn &d, const std::string &cs) {
         run.add(cn.inv_checks);
         size_t log_base = 0; while ((size_t(1) << log_base) < cfg.base) ++log_base;
+        // the object's parameters are what the constructor was given (every configuration passes base and buffer_level explicitly;
+        // index_level 0 selects the documented default: the level that holds 2^24 entries)
+        size_t want_min_level = cfg.buffer_level, want_index_level = std::max<size_t>(cfg.buffer_level + 1, cfg.index_level ? size_t(cfg.index_level) : (24 + log_base - 1) / log_base);
+        if (d.base != cfg.base || d.min_level != want_min_level || d.min_index_level != want_index_level) {
+            run.violation(cs, "container parameters (base " + std::to_string(int(d.base)) + ", buffer level " + std::to_string(int(d.min_level)) + ", first indexed level " + std::to_string(int(d.min_index_level)) +
+                              ") differ from the constructor arguments (first indexed level should be " + std::to_string(want_index_level) + ")"); return false; }
         size_t buffer_cap = 0;
         for (int j = 0; j <= d.min_level; ++j) buffer_cap += size_t(1) << (j * log_base);
         for (size_t li = 0; li < d.levels.size(); ++li) {
